@@ -91,20 +91,42 @@ def letters(pal):
         "CVq": ("Converter", dict(vo=_r(3.3 * kv), eff=_r(0.9 + de), iq=_r(8e-3 * ki))),
         "ILu": ("ILoad", dict(ii=_r(1e-3 * ki))),
         "ILn": ("ILoad", dict(ii=5e-9)),   # a live nano-amp load (below numpy's default absolute tolerance)
+        "ILp9": ("ILoad", dict(ii=1.1e-9, loss=True, rt=9.0)),   # ... whose POWER is below 1e-8 W as well
         # voltage-drop TABLES written with negative values (magnitudes, like every other drop): 1-D, planar 2-D, diode bridge
         "VLm": ("VLoss", dict(vdrop={"vi": [V], "io": io3, "vdrop": [[_r(-0.12 * kd), _r(-0.2 * kd), _r(-0.33 * kd)]]}, rt=1.0)),
         "VLm2": ("VLoss", dict(vdrop={"vi": vi2, "io": io3z, "vdrop": [[-x for x in row] for row in planar(0.07 * kd, 0.21 * kd, 0.04 * kd)]})),
         "RDm": ("Rectifier", dict(vdrop={"vi": [V], "io": io3, "vdrop": [[_r(-0.2 * kd), _r(-0.26 * kd), _r(-0.35 * kd)]]})),
+        # the deprecated (still documented) iq= keyword of LinReg: the ground current given as constant / 1-D / 2-D table with inner key "iq"
+        "LRq": ("LinReg", dict(vo=_r(1.9 * kv), vdrop=_r(0.3 * kd), iq=_r(2.3e-3 * ki))),
+        "LRq1": ("LinReg", dict(vo=_r(1.3 * kv), vdrop=_r(0.2 * kd), iq={"vi": [V], "io": io3z, "iq": [[_r(3e-4 * ki), _r(1.1e-3 * ki), _r(2.9e-3 * ki)]]})),
+        "LRq2": ("LinReg", dict(vo=_r(1.6 * kv), vdrop=_r(0.25 * kd), iq={"vi": vi2, "io": io3z, "iq": planar(2e-4 * ki, 3e-3 * ki, 2e-4 * ki)})),
     })
     return L
 
 
-SIG_ZERO = (["RL0", "VL0", "CVe", "LRe", "PS0", "RM0", "MX0", "CVc", "RMq", "CVq"], ["IL0", "PL0", "IL", "RO", "ILu", "ILn"])
+def micro_letters():
+    """a 1 V / sub-milliamp regime with well-conditioned 2-D tables (vi rows 0.5 / 1.0 V, io axis 0 / 0.1 / 1 mA: steps = 1e-4 of the largest
+    coordinate): currents move in steps of micro-amps from sweep to sweep, table slopes are hundreds per ampere."""
+    vi, io = [0.5, 1.0], [0.0, 1e-4, 1e-3]
+    pl = lambda a, b, c: [[_r(a + b * i / 1e-3 + c * (v - 0.5) / 0.5) for i in io] for v in vi]
+    return {
+        "CVu": ("Converter", dict(vo=0.6, eff={"vi": vi, "io": io, "eff": pl(0.5, 0.4, 0.05)}, iq=2e-6)),
+        "VLu": ("VLoss", dict(vdrop={"vi": vi, "io": io, "vdrop": pl(0.01, 0.3, 0.02)})),
+        "LRu": ("LinReg", dict(vo=0.45, vdrop=0.05, ig={"vi": vi, "io": io, "ig": pl(1e-6, 2e-4, 1e-6)})),
+        "RLu": ("RLoss", dict(rs=120.0)),
+        "PLu": ("PLoad", dict(pwr=1.7e-5)),
+        "ILu3": ("ILoad", dict(ii=3.3e-5)),
+        "ROu": ("RLoad", dict(rs=2.2e4)),
+    }
+
+
+SIG_MICRO = (["CVu", "VLu", "LRu", "RLu"], ["PLu", "ILu3", "ROu"])
+SIG_ZERO = (["RL0", "VL0", "CVe", "LRe", "PS0", "RM0", "MX0", "CVc", "RMq", "CVq"], ["IL0", "PL0", "IL", "RO", "ILu", "ILn", "ILp9"])
 SIG_FULL = (["RL", "VLc", "VL1", "VL2", "CVc", "CV1", "CV2", "CVb", "CVi", "LRc", "LR1", "LR2", "LRd", "PSc", "PS1",
              "RDc", "RD1", "RMc", "RM1", "MX"], ["PL", "PLx", "IL", "ILx", "RO", "ROx"])
 SIG_MID = (["RL", "VL1", "CVc", "CV2", "LRc", "LRd", "PSc", "RDc", "RMc", "MX"], ["PL", "ILx", "RO"])
 SIG_DEEP = (["RL", "CVc", "PSc", "LRc"], ["PL", "IL"])
-SIG_NEGTAB = (["VLm", "VLm2", "RDm", "RL", "CVc"], ["IL", "PL"])
+SIG_NEGTAB = (["VLm", "VLm2", "RDm", "RL", "CVc", "LRq", "LRq1", "LRq2"], ["IL", "PL"])
 
 
 def mirror_args(kind, args, pol):
@@ -247,8 +269,17 @@ def build(spec, phases_first=False):
         s.set_sys_phases(dict(spec["phases"]))
     if not spec.get("pc_first"):
         for c in spec["comps"]:
+            if c.get("pc0") is not None:   # an EARLIER configuration of the same component: the later call replaces it entirely
+                s.set_comp_phases(c["n"], copy.deepcopy(c["pc0"]))
+        for c in spec["comps"]:
             if c.get("pc") is not None:
                 s.set_comp_phases(c["n"], copy.deepcopy(c["pc"]))
+    if spec.get("bounce") and spec.get("phases"):
+        # the system phases are re-defined with other names (and cleared) and then defined again as before: component configurations are kept
+        s.set_sys_phases({"x_%s" % k: v for k, v in spec["phases"].items()})
+        if spec["bounce"] == "clear":
+            s.set_sys_phases({})
+        s.set_sys_phases(dict(spec["phases"]))
     return s
 
 
@@ -440,7 +471,7 @@ def law(rec, vin, iout, ph="", mux_idx=0):
         if not act:
             return 0.0, abs(a.get("iis", 0.0))
         v = min(abs(a["vo"]), max(av - abs(a.get("vdrop", 0.0)), 0.0))
-        return sgn(a["vo"]) * v, iout + par(a.get("ig", 0.0), iout, vin)
+        return sgn(a["vo"]) * v, iout + par(a.get("ig", a.get("iq", 0.0)), iout, vin)   # iq= is the deprecated spelling of ig=
     if k in ("PSwitch", "PMux"):
         if not act:
             return 0.0, abs(a.get("iis", 0.0))
@@ -511,6 +542,11 @@ def pc_options(comp, phases, full=True, extras=True):
             z = {p: _r(abs(comp["a"][key]) * _PHMULT[p]) for p in names}
             z[names[0]] = 0.0
             out.append(z)
+        if extras:  # a per-phase value written with a negative sign is a magnitude, like every constructor argument
+            ng = {p: _r(abs(comp["a"][key]) * _PHMULT[p]) for p in names}
+            ng[names[-1]] = -ng[names[-1]]
+            out.append(ng)
+        if k != "RLoad" and extras:
             if full:  # a table naming only an undefined phase: every defined phase is absent from it -> sleep value everywhere
                 out.append({"zz": _r(abs(comp["a"][key]) * 0.77)})
         return out
@@ -637,13 +673,40 @@ def rejected_edits(s, spec):
             calls.append(lambda n=n: s.add_comp(n, comp=RLoss("zz_" + n, rs=1.0)))      # loads feed nothing
         calls.append(lambda n=n: s.add_comp(n if rec["k"] not in LOADS else spec["comps"][0]["n"], comp=RLoss(n, rs=1.0)))   # name in use
         calls.append(lambda n=n: s.set_comp_phases(n, 5))                               # neither dict nor list
+        if rec["k"] not in LOADS:   # replacement under the same name whose rail collides with another component's name
+            other = [m for m in d if m != n][0] if len(d) > 1 else None
+            if other is not None:
+                cdef = [c for c in spec["comps"] if c["n"] == n][0]
+                calls.append(lambda n=n, cdef=cdef, other=other: s.change_comp(n, comp=make_comp(cdef), rail=other))
     calls.append(lambda: s.del_comp("no such component"))
     calls.append(lambda: s.add_comp("no such parent", comp=RLoss("zz_orphan", rs=1.0)))
     calls.append(lambda: s.set_sys_phases({"only": 1.0}))
-    for c in calls:
+    n_edits = len(calls)
+    # analyses that fail: unknown phase / component, no iteration budget, a battery model that raises after two steps
+    calls.append(lambda: common.quiet_call(s.solve, phase="no such phase"))
+    calls.append(lambda: common.quiet_call(s.rail_rep, phase="no such phase"))
+    calls.append(lambda: common.quiet_call(s.solve, maxiter=0, vtol=1e-15, itol=1e-15))
+    calls.append(lambda: common.quiet_call(s.tree, "no such component"))
+    calls.append(lambda: common.quiet_call(s.plot_interp, "no such component"))
+    src = spec["comps"][0]["n"]
+
+    def _batt():
+        n = [0]
+
+        def df(t, i):
+            n[0] += 1
+            if n[0] >= 2:
+                raise RuntimeError("battery model failed")
+            return (0.009, 4.05, 0.21)
+        import io as _io, contextlib as _cl
+        with _cl.redirect_stderr(_io.StringIO()):
+            s.batt_life(src, cutoff=0.5, pfunc=lambda: (0.01, 4.1, 0.2), dfunc=df)
+    calls.append(_batt)
+    for j, c in enumerate(calls):
         try:
             c()
-            accepted += 1
+            if j < n_edits:   # an analysis that happens to succeed (e.g. an all-dead system converges in one sweep) is no concern here
+                accepted += 1
         except Exception:
             pass
     return accepted
